@@ -156,7 +156,10 @@ def check_explicit(ctx, prog, key, fs):
             all(f.dominates_ev(p, fb[0]) or True for p in push)
         # the lookup stack is searched before descending and pushed for rule variables
         srch = [e for e in f.events('call') if lastname(e.get('name')) == 'find_if' and 'EdgeEnv::lookups_' in dstr(e.get('args'))]
-        ok = ok and bool(srch) and f.dominates_ev(srch[0], fb[0]) is not None
+        # (an algorithm call, or the loop it abbreviates when the search sits in an inlined helper)
+        from rules import loops_over as _lo
+        srch_loops = [l for l in _lo(f, 'EdgeEnv::lookups_') if l['full']]
+        ok = ok and (bool(srch) or bool(srch_loops))
         return ok, 'T1', 'the lookup stack (lookups_) is searched before descending; a repeated variable is Fatal()'
     if key == 'DependencyScan::RecomputeEdgesInputsDirty + DependencyScan::RecomputeNodeDirty':
         f = byname['DependencyScan::RecomputeNodeDirty']
